@@ -51,6 +51,38 @@ def validName? (rx : Rx) (refused : List Bytes) (s : Bytes) : Option Bool :=
   | some (cls, hex) => some (validateKID cls hex refused s)
   | none => none
 
+/-! ### what the pattern tree means: textbook regular-expression semantics -/
+
+mutual
+/-- textbook language of a pattern tree (anchors are handled by `FullMatch`) -/
+def Rx.M : Rx → Bytes → Prop
+  | .cls rs, s => ∃ b, s = [b] ∧ inRanges rs b = true
+  | .lit l, s => s = l
+  | .cat l, s => Rx.MCat l s
+  | .alt l, s => Rx.MAlt l s
+  | .plus r, s => ∃ parts : List Bytes, parts ≠ [] ∧ s = parts.flatten ∧ ∀ p ∈ parts, Rx.M r p
+  | .star r, s => ∃ parts : List Bytes, s = parts.flatten ∧ ∀ p ∈ parts, Rx.M r p
+  | .quest r, s => s = [] ∨ Rx.M r s
+  | .rep n m r, s => ∃ parts : List Bytes, n ≤ parts.length ∧ parts.length ≤ m ∧ s = parts.flatten ∧ ∀ p ∈ parts, Rx.M r p
+  | .bot, _ => False
+  | .eot, _ => False
+def Rx.MCat : List Rx → Bytes → Prop
+  | [], s => s = []
+  | r :: rs, s => ∃ a b, s = a ++ b ∧ Rx.M r a ∧ Rx.MCat rs b
+def Rx.MAlt : List Rx → Bytes → Prop
+  | [], _ => False
+  | r :: rs, s => Rx.M r s ∨ Rx.MAlt rs s
+end
+
+/-- `^x$` without flags: the whole string is in the language of x -/
+def Rx.FullMatch : Rx → Bytes → Prop
+  | .cat [.bot, x, .eot], s => x.M s
+  | _, _ => False
+
+
+/-- the pattern tree `kidClasses` recognises -/
+def kidShape (cls hex : Ranges) : Rx := .plus (.alt [.cls cls, .cat [.lit [37], .rep 2 2 (.cls hex)]])
+
 /-! ### path/filepath (unix) -/
 
 /-- split on '/' (always at least one component) -/
